@@ -142,3 +142,87 @@ NORM_ENS = [
 for _file in ('flax/linen/linear.py', 'flax/nnx/nn/linear.py'):
   function(_file + '::_normalize_axes', params=[('axes', IntSeq), ('ndim', INT)], returns=IntSeq, ensures=NORM_ENS, props=('C12',),
            native=NH(_file[:-3].replace('/', '.'), '_normalize_axes', bound=3))
+
+# ---- nnx.Dropout.__call__: the same three cases as the Linen layer (the twin must not drift) -----------------------------------
+NS = 'flax/nnx/nn/stochastic.py'
+RngsObj = opaque('RngsObject', is_str=False, nullable=True)
+NDropout = Union('NNXDropoutModule', [Ctor('NNXDropoutModule', [('rate', REAL), ('broadcast_dims', SeqOf(INT)), ('deterministic', OptB), ('rng_collection', CollName), ('rngs', RngsObj)], pytypes=('Dropout',))])
+first_det = UFn('first_from_deterministic', [OptB, OptB], BOOL, 'first_from(deterministic, self.deterministic): the call argument wins over the attribute')
+first_rngs = UFn('first_from_rngs', [RngsObj, RngsObj], RngsObj, 'first_from(rngs, self.rngs)')
+stream_key = UFn('rngs_stream_key', [RngsObj, CollName], RKey, 'rngs[self.rng_collection]()')
+
+
+def _first_from(ex, a, kw):
+  x = ex.deref(a[0])
+  if isinstance(x, SV) and x.sort.name == OptB.name or a[0] is NONEV and ex.deref(a[1]).sort.name == OptB.name:
+    return ex.call_value(first_det, [a[0], a[1]], {})
+  return ex.call_value(first_rngs, [a[0], a[1]], {})
+
+
+RngsObj.getitem = lambda ex, base, idx: Handler('stream', lambda ex2, a2, kw2: ex2.call_value(stream_key, [base, ex2.coerce(idx, CollName)], {}), 'rngs[name]: the stream; calling it draws the next key')
+NDET = 'first_from_deterministic(deterministic, self.deterministic)'
+NNORM = '(self.broadcast_dims[j] + len(inputs.shape) if self.broadcast_dims[j] < 0 else self.broadcast_dims[j])'
+NDB = dict(DB)
+NDB['first_from'] = Handler('first_from', _first_from, 'first_from(*args): the first argument that is not None')
+nnx_dropout_call = function(
+  NS + '::Dropout.__call__', params=[('self', NDropout), ('inputs', Arr), ('deterministic', OptB), ('rngs', RngsObj)], returns=Arr,
+  requires=[f'forall(Int, lambda j: implies(0 <= j and j < len(self.broadcast_dims), -len(inputs.shape) <= self.broadcast_dims[j] and self.broadcast_dims[j] < len(inputs.shape)))'],
+  ensures=[
+    f'implies(self.rate == 0.0 or {NDET}, result == inputs)',
+    f'implies(not (self.rate == 0.0 or {NDET}) and self.rate == 1.0, result == zeros_like(inputs))',
+    f"implies(not (self.rate == 0.0 or {NDET}) and self.rate != 1.0, ghost('bern_p') == 1.0 - self.rate and "
+    "ghost('bern_rng') == rngs_stream_key(first_from_rngs(rngs, self.rngs), self.rng_collection) and "
+    "ghost('select_true') == array_div(inputs, 1.0 - self.rate) and ghost('select_false') == zeros_like(inputs) and "
+    "seq_eq(ghost('broadcast_shape'), inputs.shape) and len(ghost('bern_shape')) == len(inputs.shape))",
+    f"implies(not (self.rate == 0.0 or {NDET}) and self.rate != 1.0, forall(Int, lambda i: implies(0 <= i and i < len(inputs.shape), "
+    f"ghost('bern_shape')[i] == (1 if exists(Int, lambda j: 0 <= j and j < len(self.broadcast_dims) and {NNORM} == i) else inputs.shape[i]))))",
+  ],
+  invariants={0: [
+    'len(broadcast_shape) == len(inputs.shape)',
+    f'forall(Int, lambda i: implies(0 <= i and i < len(inputs.shape), broadcast_shape[i] == (1 if exists(Int, lambda j: 0 <= j and j < _k and {NNORM} == i) else inputs.shape[i])))',
+  ]},
+  bindings=NDB, props=('C12',))
+nnx_dropout_call.locals = {'broadcast_shape': SeqOf(INT)}
+nnx_dropout_call.defaults = {'deterministic': NONEV, 'rngs': NONEV}
+
+# ---- _conv_dimension_numbers (linen and nnx twins): batch first / features last for the input and output, (out, in, spatial...)
+# ---- positions for the kernel -----------------------------------------------------------------------------------------------
+DimSpec = SeqOf(INT)
+DimNumbers = Union('ConvDimensionNumbers', [Ctor('ConvDimensionNumbers', [('lhs_spec', DimSpec), ('rhs_spec', DimSpec), ('out_spec', DimSpec)], pytypes=('ConvDimensionNumbers',))])
+
+
+def _mk_dn(ex, a, kw):
+  bound, ok = bind_call(['lhs_spec', 'rhs_spec', 'out_spec'], a, kw)
+  if not ok or len(bound) != 3:
+    raise OutsideSubset('ConvDimensionNumbers(lhs_spec, rhs_spec, out_spec) expected')
+  return SV(DimNumbers, DimNumbers.mk('ConvDimensionNumbers', *[ex.coerce(bound[k], DimSpec).t for k in ('lhs_spec', 'rhs_spec', 'out_spec')]))
+
+
+N_ = 'len(input_shape)'
+DN_ENS = [
+  f'len(result.lhs_spec) == {N_} and len(result.rhs_spec) == {N_} and len(result.out_spec) == {N_}',
+  f'result.lhs_spec[0] == 0 and result.lhs_spec[1] == {N_} - 1',                                   # (batch, features, spatial...) of an N...C input
+  f'forall(Int, lambda i: implies(2 <= i and i < {N_}, result.lhs_spec[i] == i - 1))',
+  f'result.rhs_spec[0] == {N_} - 1 and result.rhs_spec[1] == {N_} - 2',                           # (out, in, spatial...) of a ...IO kernel
+  f'forall(Int, lambda i: implies(2 <= i and i < {N_}, result.rhs_spec[i] == i - 2))',
+  f'forall(Int, lambda i: implies(0 <= i and i < {N_}, result.out_spec[i] == result.lhs_spec[i]))',
+]
+for _file in ('flax/linen/linear.py', 'flax/nnx/nn/linear.py'):
+  function(_file + '::_conv_dimension_numbers', params=[('input_shape', SeqOf(INT))], returns=DimNumbers, requires=[f'{N_} >= 2'], ensures=DN_ENS,
+           bindings={'lax.ConvDimensionNumbers': Handler('lax.ConvDimensionNumbers', _mk_dn, 'a record of the three specs')}, props=('C12',))
+
+# ---- _canonicalize_axes (linen and nnx twins): the set of non-negative axis positions, each once --------------------------------
+AxesArg = Union('AxesArgument', [Ctor('AxInt', [('i', INT)], pytypes=('int',), payload='i'), Ctor('AxSeq', [('items', SeqOf(INT))], pytypes=('tuple', 'list', 'Iterable'), payload='items')])
+ITEMS = "(axes.items if is_(axes, 'AxSeq') else single_axis(axes.i))"
+single_axis = UFn('single_axis', [INT], SeqOf(INT), '(axis,)')
+CAN_ENS = [
+  'forall(Int, Int, lambda i, j: implies(0 <= i and i < j and j < len(result), result[i] != result[j]))',
+  f"implies(is_(axes, 'AxSeq'), forall(Int, lambda i: implies(0 <= i and i < len(axes.items), exists(Int, lambda j: 0 <= j and j < len(result) and result[j] == (rank + axes.items[i] if axes.items[i] < 0 else axes.items[i])))))",
+  f"implies(is_(axes, 'AxSeq'), forall(Int, lambda j: implies(0 <= j and j < len(result), exists(Int, lambda i: 0 <= i and i < len(axes.items) and result[j] == (rank + axes.items[i] if axes.items[i] < 0 else axes.items[i])))))",
+  # a single int: the result holds that one position and nothing else (with the line above: exactly once)
+  "implies(is_(axes, 'AxInt'), forall(Int, lambda j: implies(0 <= j and j < len(result), result[j] == (rank + axes.i if axes.i < 0 else axes.i))) and "
+  "exists(Int, lambda j: 0 <= j and j < len(result) and result[j] == (rank + axes.i if axes.i < 0 else axes.i)))",
+]
+for _file in ('flax/linen/normalization.py', 'flax/nnx/nn/normalization.py'):
+  function(_file + '::_canonicalize_axes', params=[('rank', INT), ('axes', AxesArg)], returns=SeqOf(INT), ensures=CAN_ENS,
+           bindings={'Iterable': TypeTag('Iterable'), 'tp.Iterable': TypeTag('Iterable')}, props=('C12',))
